@@ -237,22 +237,25 @@ class DiscriminativeModel(ClusterMixin, BaseEstimator, ABC):
         # Fix the random seed
         random_state = check_random_state(self.random_state)
 
-        # Initialise the weights
-        if self.verbose:
-            print("Initialising parameters")
-        self._init_params(random_state, X)
-        weights = self._get_weights()
+        # Compute the affinity first: if it cannot be obtained (e.g. missing precomputed matrix), the
+        # model must be left without any (randomly initialised) parameters
         gemini = self.get_gemini()
-
-        if self.solver == "sgd":
-            self.optimiser_ = SGDOptimizer(weights, self.learning_rate)
-        else:
-            self.optimiser_ = AdamOptimizer(weights, self.learning_rate)
 
         if self.verbose:
             print(f"Computing affinity")
 
         affinity = gemini.compute_affinity(X, y)
+
+        # Initialise the weights
+        if self.verbose:
+            print("Initialising parameters")
+        self._init_params(random_state, X)
+        weights = self._get_weights()
+
+        if self.solver == "sgd":
+            self.optimiser_ = SGDOptimizer(weights, self.learning_rate)
+        else:
+            self.optimiser_ = AdamOptimizer(weights, self.learning_rate)
 
         if self.verbose:
             print(f"Starting training over {self.max_iter} iterations.")
